@@ -10,10 +10,10 @@ def _norm(s):
 
 def _loops_over_parts(co):
     """the loop that folds the word ids runs over path[begin..end] (written with .iter(), as a borrow, or through a binding)"""
-    m = re.search(r"fornodein([^{};]*)\{[^{}]*wid=wid\.max\(node\.word_id\(\)\);", co)
+    m = re.search(r"for(\w+)in([^{};]*)\{[^{}]*wid=wid\.max\(\1\.word_id\(\)\);", co)
     if not m:
         return False
-    src = m.group(1)
+    src = m.group(2)
     if src in ("path[begin..end].iter()", "&path[begin..end]"):
         return True
     return re.search(r"let%s=&path\[begin\.\.end\];" % re.escape(src.lstrip("&")), co) is not None
@@ -72,13 +72,24 @@ def gen():
     if not m:
         # the same rule in a private helper: `word_info.pos_id = self.helper(word_info.pos_id, dict_id)` under the POS_ID test,
         # helper(raw, dict_id) = if dict_id > 0 && raw >= num_system_pos { raw - num_system_pos + pos_offsets[dict_id] } else { raw }
-        hc = re.search(r"ifsubset\.contains\(InfoSubset::POS_ID\)\{word_info\.pos_id=self\.(\w+)\(word_info\.pos_id,dict_id\);\}", gb)
+        hc = re.search(r"ifsubset\.contains\(InfoSubset::POS_ID\)\{word_info\.pos_id=self\.(\w+)\((word_info\.pos_id,dict_id|dict_id,word_info\.pos_id)\);\}", gb)
         if hc and not re.search(r"\bpub(?:\([a-z]+\))?\s+fn\s+%s\b" % hc.group(1), ls):
-            sig = re.search(r"\bfn\s+%s\s*\(\s*&self\s*,\s*(\w+)\s*:\s*u16\s*,\s*dict_id\s*:\s*u8\s*\)\s*->\s*u16" % hc.group(1), ls)
-            if sig:
-                raw = sig.group(1)
-                hb = _norm(F.fn_body(ls, hc.group(1), "lexicon_set.rs"))
-                m = re.fullmatch(r"letpos_id=%sasusize;ifdict_id(>=|>|!=)(\d+)&&pos_id(>=|>)self\.num_system_pos\{\(pos_id(?:asusize)?-self\.num_system_pos\+self\.pos_offsets\[dict_idasusize\]\)asu16\}else\{%s\}" % (raw, raw), hb)
+            sig = re.search(r"\bfn\s+%s\s*\(\s*&self\s*,\s*(\w+)\s*:\s*(u16|u8)\s*,\s*(\w+)\s*:\s*(u16|u8)\s*\)\s*->\s*u16" % hc.group(1), ls)
+            if sig and {sig.group(2), sig.group(4)} == {"u16", "u8"}:
+                raw = sig.group(1) if sig.group(2) == "u16" else sig.group(3)
+                dic = sig.group(1) if sig.group(2) == "u8" else sig.group(3)
+                raw_first = sig.group(2) == "u16"
+                # the call passes the stored POS id where the helper takes the u16 and the dictionary number where it takes the u8
+                if dic == "dict_id" and raw_first == hc.group(2).startswith("word_info"):
+                    hb = _norm(F.fn_body(ls, hc.group(1), "lexicon_set.rs"))
+                    rule = r"\(pos_id(?:asusize)?-self\.num_system_pos\+self\.pos_offsets\[dict_idasusize\]\)asu16"
+                    m = re.fullmatch(r"letpos_id=%sasusize;ifdict_id(>=|>|!=)(\d+)&&pos_id(>=|>)self\.num_system_pos\{%s\}else\{%s\}" % (raw, rule, raw), hb)
+                    if not m:
+                        # guard clause: the NEGATED test returns the id unchanged.  dict_id is a u8 (signature), so
+                        # `dict_id == 0` negates to `dict_id > 0`; `pos_id < n` negates to `pos_id >= n`
+                        mi = re.fullmatch(r"letpos_id=%sasusize;ifdict_id==0\|\|pos_id<self\.num_system_pos\{return%s;\}%s" % (raw, raw, rule), hb)
+                        if mi:
+                            m = re.fullmatch(r"(>)(0)(>=)", ">0>=")
     if not m:
         raise F.FactError("POS rebasing in get_word_info_subset is no longer `dict_id > 0 && pos_id >= num_system_pos => pos_id - num_system_pos + pos_offsets[dict_id]`")
     out.append('Definition rebase_dic_cmp : string := "%s".\nDefinition rebase_dic_rhs : N := %s.\nDefinition rebase_pos_cmp : string := "%s".\n' %
@@ -88,6 +99,12 @@ def gen():
             raise F.FactError("get_word_info_subset no longer re-stamps %s" % fld)
     ub = _norm(F.fn_body(ls, "update_dict_id", "lexicon_set.rs"))
     m = re.search(r"letcur_dict_id=id\.dic\(\);ifcur_dict_id(>=|>|!=)(\d+)\{\*id=WordId::checked\(dict_id,id\.word\(\)\)\?;\}", ub)
+    if not m:
+        m = re.search(r"foridinsplit\.iter_mut\(\)\{ifid\.dic\(\)(>=|>|!=)(\d+)\{\*id=WordId::checked\(dict_id,id\.word\(\)\)\?;\}\}", ub)
+    if not m and re.search(r"foridinsplit\.iter_mut\(\)\{(?:let(\w+)=id\.dic\(\);if\1|ifid\.dic\(\))==0\{continue;\}\*id=WordId::checked\(dict_id,id\.word\(\)\)\?;\}", ub) \
+            and re.fullmatch(r"return\(self\.raw>>(\d+)\)asu8;?|\(self\.raw>>(\d+)\)asu8", db):
+        # guard clause `if id.dic() == 0 { continue; }`: WordId::dic returns a u8, so the words re-stamped are those with dic() > 0
+        m = re.fullmatch(r"(>)(0)", ">0")
     if not m:
         raise F.FactError("update_dict_id is no longer `if id.dic() > 0 { id = checked(dict_id, id.word()) }`")
     out.append('Definition restamp_cmp : string := "%s".\nDefinition restamp_rhs : N := %s.\n' % (m.group(1), F.coq_int(int(m.group(2)))))
@@ -159,7 +176,7 @@ def gen():
     # ---- tokens made by path rewrite plugins: which word id (dictionary number / OOV) they carry
     nd = F.strip_comments(F.src("sudachi/src/analysis/node.rs"))
     co = _norm(F.fn_body(nd, "concat_oov_nodes", "analysis/node.rs"))
-    if "letmutwid=WordId::from_raw(0);" in co and "wid=wid.max(node.word_id());" in co \
+    if "letmutwid=WordId::from_raw(0);" in co and re.search(r"wid=wid\.max\(\w+\.word_id\(\)\);", co) \
             and "if!wid.is_oov(){wid=WordId::new(wid.dic(),WordId::MAX_WORD);}" in co \
             and re.search(r"Node::new\([^;{}]*?asu16,[^;{}]*?asu16,u16::MAX,u16::MAX,i16::MAX,wid,?\)", co) \
             and _loops_over_parts(co):
